@@ -16,8 +16,9 @@ Definition of_Z2 (m e : Z) : b64 := binary_normalize prec emax Hprec Hmax mode_N
 Definition b64_of_Z (n : Z) : b64 := of_Z2 n 0.          (* float(n) for an int *)
 Definition bzero : b64 := B754_zero false.
 
-(* Python: x <= 0 for a float (False for NaN) *)
-Definition le0 (x : b64) : bool := Bleb x bzero.
+(* Python: not (0 < x < float("inf")) for a float: zero, negative, infinite or NaN (a comparison with NaN is False) *)
+Definition binf : b64 := B754_infinity false.
+Definition le0 (x : b64) : bool := negb (Bltb bzero x && Bltb x binf).
 
 (* Python's round(x) for a float (round half to even, exact int); None: x is inf/nan (OverflowError / ValueError) *)
 Definition py_round (x : b64) : option Z :=
@@ -30,7 +31,7 @@ Definition nr_of_old (cutoff dr : b64) : Z := Btrunc (Bplus mode_NE (Bdiv mode_N
 (* cutoff = (nr-1)*dr : int * float *)
 Definition cutoff_of (nr : Z) (dr : b64) : b64 := Bmult mode_NE (b64_of_Z (nr - 1)) dr.
 
-Definition check_positive (nr : option Z) (dr cutoff : option b64) : bool :=   (* true = a value is <= 0 -> ConfigParserException *)
+Definition check_positive (nr : option Z) (dr cutoff : option b64) : bool :=   (* true = a value is not strictly positive and finite -> ConfigParserException *)
   match nr with Some n => (n <=? 0)%Z | None => false end
   || match dr with Some d => le0 d | None => false end
   || match cutoff with Some c => le0 c | None => false end.
